@@ -64,6 +64,12 @@ def build(Counter):
     sky = cf.CelestialFrame(reference_frame=coord.ICRS(), name="sky")
     w = wcs.WCS([(det, Counter()), (mid, tr), (sky, None)])
     w.bounding_box = ((-0.5, 999.5), (-0.5, 799.5))
+    # a twin with a cubic distortion of a few pixels: low-degree SIP fits cannot reach a tight accuracy (the warning paths of the exporters)
+    px = models.Polynomial2D(3, c1_0=1.0, c2_0=2e-6, c1_1=-1e-6, c3_0=3e-9, c0_3=1e-9)
+    py = models.Polynomial2D(3, c0_1=1.0, c0_2=1.5e-6, c1_1=2e-6, c1_2=-2e-9, c3_0=1e-9)
+    dist = models.Mapping((0, 1, 0, 1)) | px & py
+    w.distorted = wcs.WCS([(cf.Frame2D(name="detector"), Counter()), (cf.Frame2D(name="mid"), dist | tr), (sky, None)])
+    w.distorted.bounding_box = ((-0.5, 999.5), (-0.5, 799.5))
     return w
 
 
@@ -102,6 +108,10 @@ def entry_points(w):
     E["to_fits_tab"] = lambda: w.to_fits_tab(sampling=200)
     E["to_fits"] = lambda: w.to_fits(degree=2, npoints=8)
     E["to_fits_sip(bad-box)"] = lambda: w.to_fits_sip(bounding_box=((0, 1),))
+    wd = w.distorted
+    E["to_fits_sip(accuracy unmet,degree=1)"] = lambda: wd.to_fits_sip(degree=1, max_pix_error=1e-4, npoints=8)
+    E["to_fits_sip(accuracy unmet,degree list)"] = lambda: wd.to_fits_sip(degree=[1, 2], max_pix_error=1e-5, max_inv_pix_error=1e-5, npoints=8)
+    E["to_fits(accuracy unmet)"] = lambda: wd.to_fits(degree=2, max_pix_error=1e-5, npoints=8)
     return E
 
 
